@@ -130,6 +130,34 @@ def run(ctx):
     }
     # 3. validation of the specification against protoc's own verdicts
     ctx.extra["spec_golden_agreement"] = golden_agreement(ctx)
+    # 4. the compiler itself on the protoc-confirmed table entries (whole language, not only the fragment)
+    ctx.extra["table_oracle"] = table_oracle(ctx)
+
+
+def table_oracle(ctx):
+    """TestLinkerValidation / TestBasicValidation cannot run offline (they shell out to protoc), but each entry
+    records the verdict upstream CI confirmed against protoc.  Entries not flagged expectedDiffWithProtoc are a
+    direct oracle for the property on hand-written inputs of the whole language (options, features, editions)."""
+    t = ctx.impl("miniproto", [{"mode": "tables", "repo": REPO}], shards=1)[0]
+    entries = [c for c in t.get("cases", []) if c["readable"] and not c["diff"]]
+    outs = ctx.impl("miniproto", [{"mode": "compile", "files": c["files"], "roots": c["order"] or sorted(c["files"])} for c in entries])
+    bad = []
+    for c, o in zip(entries, outs):
+        exp_ok = c["err"] == ""
+        if "panic" in o or "crash" in o:
+            ctx.violation("panic", "the compiler panicked or crashed on a table entry", {"table": c["table"], "name": c["name"], "files": c["files"], "observed": o})
+            continue
+        ctx.count(("table", c["table"], c["name"]), True, "table:" + ("accept" if exp_ok else "reject"))
+        if o["ok"] != exp_ok:
+            bad.append(c["name"])
+            ctx.violation("table-entry:" + c["name"],
+                          "protoc %s this input (verdict recorded in %s and confirmed by upstream CI), the compiler %s it"
+                          % ("accepts" if exp_ok else "rejects", "linker/linker_test.go" if c["table"] == "linker" else "parser/validate_test.go",
+                             "accepts" if o["ok"] else "rejects"),
+                          {"table": c["table"], "name": c["name"], "files": c["files"], "roots": c["order"],
+                           "protoc": "accept" if exp_ok else "reject: " + c["err"],
+                           "impl_errors": [(e["file"], e["msg"]) for e in o["errs"]][:4] or o.get("err")})
+    return {"entries_evaluated": len(entries), "verdict_agrees": len(entries) - len(bad), "disagree": bad}
 
 
 def golden_agreement(ctx):
